@@ -151,7 +151,7 @@ def check_stars(case):
     import h5py
     from onsager import crystalStars as stars
     crys, sl, jn, calc = vs.calculator(case["setup"])
-    S = stars.StarSet(jn, crys, 0)
+    S = stars.StarSet(jn, crys, case["setup"]["chem"])
     S.generate(case["setup"]["Nthermo"], originstates=case["originstates"])
     V = stars.VectorStarSet(S)
     f = h5py.File("c13st.h5", "w", driver="core", backing_store=False)
